@@ -23,6 +23,8 @@
     alignT_partial_lazy                  partial names on a lazy non-tensor term: wrapper dropped, order unchanged
     align_keeps_domain / reorderByName_keeps_domain / reorderByPosition_witness   re-ordering keeps name -> domain
     realign_callers_covered              obligation over Gen/C19Callers.lean (callers of to_data/to_funsor/align_tensor(s))
+    madeOp_sem                           make_op rule (binary): value at every named point = f of the operands' values there
+    operand_padded / clip_operand / buildAx_eq_map   the broadcasting glue (raw operands as maps over the axis range)
     madeDims_ok / madeOp_operand_sem_partial   make_op rule: injective joint name_to_dim; each raw operand = the operand pointwise
     madeOp_example / madeOp_skip_toData_witness   the make_op rule on x(a,b), y(b,a); skipping to_data is unsound
     align_classes_covered                obligation over Gen/C19Align.lean (classes defining `align`, from source)
@@ -3603,8 +3605,8 @@ theorem madeOp_skip_toData_witness :
 
 /-! ### make_op: the joint name_to_dim and what each raw operand is
 
-  Full statement (`madeOp_sem`, NOT proved here; tied by exact correspondence in the `makeop`
-  stream and by `madeOp_example`):
+  Full statement (`madeOp_sem`, proved further below for the binary case with non-empty inputs;
+  also tied by exact correspondence in the `makeop` stream and by `madeOp_example`):
 
     TensorOK sz x → TensorOK sz y →
     ∃ t, madeOp2 f x y = .ok t ∧ ∀ env, (∀ n, env n < sz n) →
@@ -3613,8 +3615,8 @@ theorem madeOp_skip_toData_witness :
   Proved below (`…_partial`): the rule's `name_to_dim` is injective with dims -1, -2, …, it names
   every input of every operand, and therefore each raw operand `to_data(arg, name_to_dim)` is —
   at EVERY index — the operand's value at the corresponding named point (`toData_sem_idx`).  The
-  result side is `toFunsor_sem`.  Missing: the glue lemma that numpy's right-aligned broadcasting
-  of the two raw arrays reads both at the same named point. -/
+  result side is `toFunsor_sem`.  The glue — numpy's right-aligned broadcasting of the two raw
+  arrays reads both at the same named point — is `operand_padded` + `clip_operand` below. -/
 
 /-- Invariant of the `setdefault` loop: dims are -1, -2, … in insertion order, names distinct. -/
 def DimsInv (acc : List (String × Int)) : Prop :=
@@ -3776,6 +3778,484 @@ theorem madeOp_operand_sem_partial (args : List (Tensor α)) (x : Tensor α) (hx
   obtain ⟨r, d0, rest, bshape, h1, h2, h3, h4, h5⟩ :=
     toData_sem_idx x (madeDims args) hwf hin hneg U hU hUn
   exact ⟨U, r, d0, rest, bshape, hU, hUn, h1, h2, h3, h4, h5⟩
+
+
+/-! ### make_op: the glue — everything as maps over the axis range -/
+
+theorem bidx_eq_map (env : String → Nat) : ∀ (l : List (Option String × Nat)),
+    bidx env l = l.map (fun p => match p with
+      | (some n, s) => if s ≠ 1 then env n else 0
+      | (none, _) => 0)
+  | [] => rfl
+  | (none, s) :: l => by simp [bidx, bidx_eq_map env l]
+  | (some n, s) :: l => by simp [bidx, bidx_eq_map env l]
+
+theorem clip_map {β : Type} (σ ι : β → Nat) : ∀ (L : List β),
+    clip (L.map σ) (L.map ι) = L.map (fun j => if σ j = 1 then 0 else ι j)
+  | [] => rfl
+  | a :: L => by simp [clip, clip_map σ ι L]
+
+theorem bshape2_map {β : Type} (σ1 σ2 : β → Nat) : ∀ (L : List β),
+    (∀ j ∈ L, σ1 j = σ2 j ∨ σ1 j = 1 ∨ σ2 j = 1) →
+    bshape2 (L.map σ1) (L.map σ2) = some (L.map (fun j => if σ1 j = 1 then σ2 j else σ1 j))
+  | [], _ => rfl
+  | a :: L, h => by
+      have ih := bshape2_map σ1 σ2 L (fun j hj => h j (by simp [hj]))
+      simp only [List.map_cons, bshape2, ih]
+      rcases h a (by simp) with h1 | h1 | h1
+      · by_cases h2 : σ1 a = 1
+        · simp [h1, h2] at *
+        · simp [h1, h2]
+      · simp [h1]
+      · by_cases h2 : σ1 a = 1
+        · simp [h1, h2]
+        · simp [h1, h2]
+
+theorem zip_map_same {β γ δ : Type} (f : β → γ) (g : β → δ) : ∀ (L : List β),
+    (L.map f).zip (L.map g) = L.map (fun j => (f j, g j))
+  | [] => rfl
+  | a :: L => by simp [zip_map_same f g L]
+
+theorem packed_map_mem {β : Type} (ψ : β → Option String × Nat) : ∀ (L : List β),
+    ∀ p ∈ packedSpec (L.map ψ), ∃ j ∈ L, ψ j = (some p.1, p.2) ∧ p.2 ≠ 1
+  | [], p, h => by simp [packedSpec] at h
+  | a :: L, p, h => by
+      simp only [List.map_cons] at h
+      cases hψ : ψ a with
+      | mk nm s =>
+        rw [hψ] at h
+        cases nm with
+        | none =>
+          obtain ⟨j, hj, hp⟩ := packed_map_mem ψ L p (by simpa [packedSpec] using h)
+          exact ⟨j, by simp [hj], hp⟩
+        | some n =>
+          by_cases hs : s = 1
+          · obtain ⟨j, hj, hp⟩ := packed_map_mem ψ L p (by simpa [packedSpec, hs] using h)
+            exact ⟨j, by simp [hj], hp⟩
+          · simp only [packedSpec, ne_eq, hs, not_false_eq_true, if_true, List.mem_cons] at h
+            rcases h with rfl | h
+            · exact ⟨a, by simp, hψ, hs⟩
+            · obtain ⟨j, hj, hp⟩ := packed_map_mem ψ L p h
+              exact ⟨j, by simp [hj], hp⟩
+
+theorem ravel_ones_prefix (s J : List Nat) : ∀ (k : Nat),
+    ravel (List.replicate k 1 ++ s) (List.replicate k 0 ++ J) = ravel s J ∧
+    prod (List.replicate k 1 ++ s) = prod s
+  | 0 => by simp
+  | k + 1 => by
+      obtain ⟨h1, h2⟩ := ravel_ones_prefix s J k
+      simp only [List.replicate_succ, List.cons_append, ravel, prod, Nat.zero_mul, Nat.zero_add,
+        Nat.one_mul]
+      exact ⟨h1, h2⟩
+
+/-- `buildAx` as a map over the axis range. -/
+theorem buildAx_eq_map (h g : Int → Nat) : ∀ (n : Nat) (off : Int) (S : List Int),
+    S.Pairwise (· < ·) → (∀ d ∈ S, off ≤ d ∧ d < off + n) →
+    buildAx h g off n S = (List.range n).map (fun (j : Nat) =>
+      if off + (j : Int) ∈ S then (true, h (off + j), g (off + j)) else (false, 1, 0))
+  | 0, _, _, _, _ => rfl
+  | n + 1, off, [], _, _ => by
+      have ih := buildAx_eq_map h g n (off + 1) [] (by simp) (by simp)
+      simp only [buildAx, ih, List.range_succ_eq_map, List.map_cons, List.map_map]
+      simp
+  | n + 1, off, d :: S, hs, hb => by
+      simp only [List.pairwise_cons] at hs
+      have hd0 := hb d (by simp)
+      rw [List.range_succ_eq_map]
+      by_cases hd : d = off
+      · have hb' : ∀ x ∈ S, off + 1 ≤ x ∧ x < off + 1 + n := by
+          intro x hx
+          have h1 := hs.1 x hx
+          have h2 := hb x (by simp [hx])
+          push_cast at h2; omega
+        have ih := buildAx_eq_map h g n (off + 1) S hs.2 hb'
+        simp only [buildAx, hd, if_true, ih, List.map_cons, List.map_map]
+        congr 1
+        · simp
+        · apply List.map_congr_left
+          intro j _
+          have e : off + 1 + (j : Int) = off + ((j + 1 : Nat) : Int) := by push_cast; omega
+          have hne : off + ((j + 1 : Nat) : Int) ≠ off := by push_cast; omega
+          simp only [Function.comp, e, List.mem_cons, hne, false_or]
+      · have hb' : ∀ x ∈ d :: S, off + 1 ≤ x ∧ x < off + 1 + n := by
+          intro x hx
+          simp only [List.mem_cons] at hx
+          rcases hx with rfl | hx
+          · push_cast at hd0; omega
+          · have h1 := hs.1 x hx
+            have h2 := hb x (by simp [hx])
+            push_cast at h2; omega
+        have ih := buildAx_eq_map h g n (off + 1) (d :: S)
+          (by simp only [List.pairwise_cons]; exact hs) hb'
+        have hoff : off ∉ d :: S := fun hm => by have := hb' off hm; omega
+        simp only [buildAx, hd, if_false, ih, List.map_cons, List.map_map]
+        congr 1
+        · simp [hoff]
+        · apply List.map_congr_left
+          intro j _
+          have e : off + 1 + (j : Int) = off + ((j + 1 : Nat) : Int) := by push_cast; omega
+          simp only [Function.comp, e]
+
+
+/-- Size and index of axis `j` of an `n`-axis array, the axis sitting on dim `j - n`. -/
+def sigmaAx (S : List Int) (h : Int → Nat) (n j : Nat) : Nat :=
+  if (j : Int) - (n : Int) ∈ S then h ((j : Int) - n) else 1
+def idxAx (S : List Int) (g : Int → Nat) (n j : Nat) : Nat :=
+  if (j : Int) - (n : Int) ∈ S then g ((j : Int) - n) else 0
+
+theorem inb_axAll : ∀ (l : List Ax), (∀ q ∈ l, q.1 = true → q.2.2 < q.2.1) →
+    (∀ q ∈ l, q.1 = false → q.2.1 = 1) → inb (axAllSizes l) (axAllIdx l) = true
+  | [], _, _ => rfl
+  | (true, s, i) :: l, hk, hd => by
+      have ih := inb_axAll l (fun q hq => hk q (by simp [hq])) (fun q hq => hd q (by simp [hq]))
+      have := hk (true, s, i) (by simp) rfl
+      simp only [axAllSizes, axAllIdx, List.map_cons, inb, if_true, Bool.and_eq_true,
+        decide_eq_true_eq] at ih ⊢
+      exact ⟨this, ih⟩
+  | (false, s, i) :: l, hk, hd => by
+      have ih := inb_axAll l (fun q hq => hk q (by simp [hq])) (fun q hq => hd q (by simp [hq]))
+      have := hd (false, s, i) (by simp) rfl
+      simp only [axAllSizes, axAllIdx, List.map_cons, inb, Bool.false_eq_true, if_false,
+        Bool.and_eq_true, decide_eq_true_eq] at ih ⊢
+      simp only at this
+      exact ⟨by omega, ih⟩
+
+/-- Padding a list indexed by the last `ra` axes up to `n = k + ra` axes. -/
+theorem pad_range_map (S : List Int) (φ : Int → Nat) (dflt : Nat) (d0 : Int) (ra k : Nat)
+    (hd0 : d0 = -(ra : Int)) (hlow : ∀ d ∈ S, d0 ≤ d) :
+    List.replicate k dflt ++ (List.range ra).map (fun (j : Nat) => if d0 + (j : Int) ∈ S then φ (d0 + j) else dflt)
+      = (List.range (k + ra)).map (fun (j : Nat) =>
+          if (j : Int) - ((k + ra : Nat) : Int) ∈ S then φ ((j : Int) - ((k + ra : Nat) : Int)) else dflt) := by
+  rw [List.range_add, List.map_append, List.map_map]
+  congr 1
+  · symm
+    rw [List.eq_replicate_iff]
+    refine ⟨by simp, ?_⟩
+    intro b hb
+    simp only [List.mem_map, List.mem_range] at hb
+    obtain ⟨j, hj, rfl⟩ := hb
+    have : (j : Int) - ((k + ra : Nat) : Int) ∉ S := fun hm => by
+      have := hlow _ hm; push_cast at this; omega
+    rw [if_neg this]
+  · apply List.map_congr_left
+    intro j _
+    have e : ((k + j : Nat) : Int) - ((k + ra : Nat) : Int) = d0 + (j : Int) := by push_cast; omega
+    simp only [Function.comp, e]
+
+/-- **operand_padded.**  The raw operand the made-op rule passes to the function, after numpy's
+    left-padding to `n` axes: its axis sizes, and its entry at the index that carries `g d` on the
+    axis of each requested dim `d`. -/
+theorem operand_padded (x : Tensor α) (n2d : List (String × Int)) (hwf : x.WF)
+    (hin : x.inputs ≠ []) (hneg : ∀ p ∈ n2d, p.2 < 0) (hout : x.outShape = [])
+    (U : List Int) (hU : x.keys.mapM (fun k => lookup k n2d) = some U) (hinj : U.Nodup) :
+    ∃ a d0 rest, sortInts U = d0 :: rest ∧ toData x (some n2d) = .ok a ∧
+      a.shape.length = (-d0).toNat ∧ ∀ n, (-d0).toNat ≤ n →
+      ∃ a', padLeft a n = .ok a' ∧
+        a'.shape = (List.range n).map (sigmaAx (sortInts U) (sizeAt U x.sizes) n) ∧
+        ∀ g : Int → Nat, (∀ d ∈ U, g d < sizeAt U x.sizes d) →
+          a'.get ((List.range n).map (idxAx (sortInts U) g n)) = x.data.get (U.map g) := by
+  obtain ⟨r, d0, rest, hSd, hr, hshape, hval⟩ := toData_sem x n2d hwf hin hneg U hU hinj
+  have hUneg : ∀ d ∈ U, d < 0 := by
+    intro d hd
+    obtain ⟨k, _, hk⟩ := mapM_some_mem _ _ _ hU d hd
+    exact hneg (k, d) (lookup_mem k d n2d hk)
+  have hS := sortInts_sorted U hinj
+  have hiff : ∀ a, a ∈ sortInts U ↔ a ∈ U := fun a => mem_sortInts a U
+  generalize hh : sizeAt U x.sizes = h at *
+  rw [hSd] at hS hiff hshape hval ⊢
+  have hd0neg : d0 < 0 := hUneg d0 ((hiff d0).mp (by simp))
+  have hD : ((-d0).toNat : Int) = -d0 := by omega
+  have hbounds : ∀ d ∈ d0 :: rest, d0 ≤ d ∧ d < d0 + ((-d0).toNat : Nat) := by
+    intro d hd
+    have hdn := hUneg d ((hiff d).mp hd)
+    simp only [List.pairwise_cons] at hS
+    simp only [List.mem_cons] at hd
+    rcases hd with rfl | hd
+    · omega
+    · have := hS.1 d hd; omega
+  have hB := fun g => buildAx_eq_map h g (-d0).toNat d0 (d0 :: rest) hS hbounds
+  have hspec := fun g => buildAx_spec h g (-d0).toNat d0 (d0 :: rest) hS hbounds
+  have hrs : ∀ g, r.shape = axAllSizes (buildAx h g d0 (-d0).toNat (d0 :: rest)) := by
+    intro g; have := hshape g; rwa [hout, List.append_nil] at this
+  have hsizes : r.shape = (List.range (-d0).toNat).map (fun (j : Nat) =>
+      if d0 + (j : Int) ∈ d0 :: rest then h (d0 + j) else 1) := by
+    rw [hrs (fun _ => 0), hB, axAllSizes, List.map_map]
+    apply List.map_congr_left
+    intro j _
+    simp only [Function.comp]; split <;> rfl
+  refine ⟨r, d0, rest, rfl, hr, by rw [hsizes]; simp, ?_⟩
+  intro n hn
+  obtain ⟨k, rfl⟩ : ∃ k, n = k + (-d0).toNat := ⟨n - (-d0).toNat, by omega⟩
+  have hk : k + (-d0).toNat - r.shape.length = k := by rw [hsizes]; simp
+  have hlow : ∀ d ∈ d0 :: rest, d0 ≤ d := fun d hd => (hbounds d hd).1
+  have hd0' : d0 = -(((-d0).toNat : Nat) : Int) := by omega
+  unfold padLeft
+  rw [hk]
+  have hprod := (ravel_ones_prefix r.shape [] k).2
+  simp only [reshape, hprod, if_true]
+  refine ⟨_, rfl, ?_, ?_⟩
+  · show List.replicate k 1 ++ r.shape = _
+    rw [hsizes]
+    exact pad_range_map (d0 :: rest) h 1 d0 (-d0).toNat k hd0' hlow
+  · intro g hg
+    have hidx : (List.range (k + (-d0).toNat)).map (idxAx (d0 :: rest) g (k + (-d0).toNat))
+        = List.replicate k 0 ++ axAllIdx (buildAx h g d0 (-d0).toNat (d0 :: rest)) := by
+      rw [hB g, axAllIdx, List.map_map]
+      have := pad_range_map (d0 :: rest) g 0 d0 (-d0).toNat k hd0' hlow
+      unfold idxAx
+      rw [← this]
+      congr 1
+      apply List.map_congr_left
+      intro j _
+      simp only [Function.comp]; split <;> simp
+    rw [hidx]
+    show r.get (unravel r.shape (ravel (List.replicate k 1 ++ r.shape) _)) = _
+    rw [(ravel_ones_prefix r.shape _ k).1, hrs g]
+    obtain ⟨_, _, hks, hki, hdrop⟩ := hspec g
+    have hinb : inb (axAllSizes (buildAx h g d0 (-d0).toNat (d0 :: rest)))
+        (axAllIdx (buildAx h g d0 (-d0).toNat (d0 :: rest))) = true := by
+      apply inb_axAll _ _ hdrop
+      intro q hq hq1
+      rw [hB g] at hq
+      simp only [List.mem_map, List.mem_range] at hq
+      obtain ⟨j, _, rfl⟩ := hq
+      split at hq1
+      · rename_i hm
+        simp only [hm, if_true]
+        exact hg _ ((hiff _).mp hm)
+      · simp at hq1
+    rw [unravel_ravel _ _ hinb]
+    have := hval g [] hg (by rw [hout]; rfl)
+    simpa using this
+
+
+theorem mapM_some_getElem {β γ : Type} (f : β → Option γ) : ∀ (l : List β) (r : List γ),
+    l.mapM f = some r → ∀ i (hi : i < l.length) (hr : i < r.length), f l[i] = some r[i]
+  | [], r, h, i, hi, _ => by simp at hi
+  | a :: l, r, h, i, hi, hr => by
+      rw [List.mapM_cons] at h
+      cases hf : f a with
+      | none => simp [hf] at h
+      | some b =>
+        cases hm : l.mapM f with
+        | none => simp [hf, hm] at h
+        | some r' =>
+          simp only [hf, hm] at h
+          have : r = b :: r' := by cases h; rfl
+          subst this
+          cases i with
+          | zero => simpa using hf
+          | succ i =>
+            simp only [List.getElem_cons_succ]
+            exact mapM_some_getElem f l r' hm i (by simpa using hi) (by simpa using hr)
+
+theorem lookup_swap' (k : String) (v : Int) : ∀ (d : List (String × Int)),
+    (d.map (·.2)).Nodup → lookup k d = some v → lookup v (d.map fun p => (p.2, p.1)) = some k
+  | [], _, h => by simp [lookup] at h
+  | (k', v') :: r, hn, h => by
+      simp only [List.map_cons, List.nodup_cons] at hn
+      simp only [lookup] at h
+      simp only [List.map_cons, lookup]
+      by_cases hk : k' = k
+      · simp only [hk, if_true, Option.some.injEq] at h; simp [hk, h]
+      · simp only [hk, if_false] at h
+        have hmem : v ∈ r.map (·.2) := List.mem_map_of_mem (f := (·.2)) (lookup_mem k v r h)
+        have hv : v' ≠ v := fun e => hn.1 (e ▸ hmem)
+        simp only [hv, if_false]
+        exact lookup_swap' k v r hn.2 h
+
+/-- What the joint `dim_to_name` knows about the dims of one operand. -/
+theorem operand_dims (sz : String → Nat) (x : Tensor α) (n2d : List (String × Int))
+    (hv : (n2d.map (·.2)).Nodup) (hs : SizedI sz x.inputs) (U : List Int)
+    (hU : x.keys.mapM (fun k => lookup k n2d) = some U) (hinj : U.Nodup) (env : String → Nat) :
+    U.map (dimVal (n2d.map fun p => (p.2, p.1)) env) = x.keys.map env ∧
+    ∀ d ∈ U, ∃ k, lookup d (n2d.map fun p => (p.2, p.1)) = some k ∧ sizeAt U x.sizes d = sz k ∧
+      dimVal (n2d.map fun p => (p.2, p.1)) env d = env k := by
+  have hlen : U.length = x.keys.length := mapM_some_length _ _ _ hU
+  have hget : ∀ i (hi : i < U.length), lookup U[i] (n2d.map fun p => (p.2, p.1))
+      = some (x.keys[i]'(by omega)) := by
+    intro i hi
+    exact lookup_swap' _ _ n2d hv (mapM_some_getElem _ _ _ hU i (by omega) hi)
+  have hsz : U.map (sizeAt U x.sizes) = x.sizes :=
+    map_sizeAt U x.sizes hinj (by simp [Tensor.sizes, Tensor.keys] at hlen ⊢; exact hlen)
+  refine ⟨?_, ?_⟩
+  · apply List.ext_getElem
+    · simp [hlen]
+    · intro i h1 h2
+      have hi : i < U.length := by simpa using h1
+      simp only [List.getElem_map, dimVal, hget i hi]
+  · intro d hd
+    obtain ⟨i, hi, rfl⟩ := List.getElem_of_mem hd
+    have hi' : i < x.inputs.length := by simp [Tensor.keys] at hlen; omega
+    refine ⟨x.keys[i]'(by omega), hget i hi, ?_, by simp only [dimVal, hget i hi]⟩
+    have e2 : sizeAt U x.sizes U[i] = x.inputs[i].2 := by
+      have := List.getElem_of_eq hsz (i := i) (by simpa using hi)
+      simpa [Tensor.sizes] using this
+    have e1 : x.keys[i]'(by omega) = x.inputs[i].1 := by simp [Tensor.keys]
+    rw [e2, e1]; exact hs _ (List.getElem_mem _)
+
+
+/-- Reading one padded operand at the result's index: numpy's broadcasting (`clip`) of the index
+    `to_funsor` reads lands on the operand's own named point. -/
+theorem clip_operand (sz : String → Nat) (d2n : List (Int × String)) (env : String → Nat)
+    (henv : ∀ n, env n < sz n) (S : List Int) (h : Int → Nat) (n : Nat) (σ : Nat → Nat)
+    (hσ : ∀ j, sigmaAx S h n j ≠ 1 → σ j = sigmaAx S h n j)
+    (hL : ∀ d ∈ S, ∃ k, lookup d d2n = some k ∧ h d = sz k ∧ dimVal d2n env d = env k) :
+    clip ((List.range n).map (sigmaAx S h n))
+      ((List.range n).map (fun (j : Nat) => match (lookup ((j : Int) - n) d2n, σ j) with
+        | (some nm, s) => if s ≠ 1 then env nm else 0
+        | (none, _) => 0))
+      = (List.range n).map (idxAx S (dimVal d2n env) n) := by
+  rw [clip_map]
+  apply List.map_congr_left
+  intro j _
+  by_cases hm : (j : Int) - (n : Int) ∈ S
+  · obtain ⟨k, hk, hhk, hgk⟩ := hL _ hm
+    have hs : sigmaAx S h n j = sz k := by simp [sigmaAx, hm, hhk]
+    simp only [idxAx, hm, if_true, hgk, hk]
+    by_cases h1 : sigmaAx S h n j = 1
+    · have := henv k; rw [← hs, h1] at this
+      simp only [h1, if_true]; omega
+    · simp only [h1, if_false, hσ j h1, ne_eq, not_false_eq_true, if_true]
+  · simp [sigmaAx, idxAx, hm]
+
+/-- **madeOp_sem.**  The eager rule behind every `funsor.make_op` binary op — `to_data` each operand
+    with the joint `name_to_dim`, apply the raw elementwise function under numpy broadcasting,
+    `to_funsor` with the inverse map — succeeds on well-formed scalar operands with consistent
+    sizes, and its value at EVERY named point is `f` of the operands' values at that point,
+    whatever order each operand lists its inputs in. -/
+theorem madeOp_sem (sz : String → Nat) (f : α → α → α) (x y : Tensor α)
+    (hx : TensorOK sz x) (hy : TensorOK sz y) (hxi : x.inputs ≠ []) (hyi : y.inputs ≠ []) :
+    ∃ t, madeOp2 f x y = .ok t ∧
+      ∀ env, (∀ n, env n < sz n) → t.atEnv env [] = f (x.atEnv env []) (y.atEnv env []) := by
+  obtain ⟨hxw, hxk, hxs, hxo⟩ := hx
+  obtain ⟨hyw, hyk, hys, hyo⟩ := hy
+  obtain ⟨hv, hneg, hkn, hall⟩ := madeDims_ok [x, y]
+  generalize hn2d : madeDims [x, y] = n2d at *
+  obtain ⟨Ux, hUx, hUxn, _⟩ := mapM_lookup_nodup n2d hv hkn x.keys hxk (hall x (by simp))
+  obtain ⟨Uy, hUy, hUyn, _⟩ := mapM_lookup_nodup n2d hv hkn y.keys hyk (hall y (by simp))
+  obtain ⟨a, dx, rx, hSx, ha, hal, hpa⟩ := operand_padded x n2d hxw hxi hneg hxo Ux hUx hUxn
+  obtain ⟨b, dy, ry, hSy, hb, hbl, hpb⟩ := operand_padded y n2d hyw hyi hneg hyo Uy hUy hUyn
+  generalize hn : max a.shape.length b.shape.length = n
+  obtain ⟨a', hpa', has, hav⟩ := hpa n (by rw [← hal, ← hn]; exact Nat.le_max_left _ _)
+  obtain ⟨b', hpb', hbs, hbv⟩ := hpb n (by rw [← hbl, ← hn]; exact Nat.le_max_right _ _)
+  generalize hd2n : (n2d.map fun p => (p.2, p.1)) = d2n at *
+  have hLx := fun env => operand_dims sz x n2d hv hxs Ux hUx hUxn env
+  have hLy := fun env => operand_dims sz y n2d hv hys Uy hUy hUyn env
+  rw [hd2n] at hLx hLy
+  have hmx : ∀ d, d ∈ sortInts Ux ↔ d ∈ Ux := fun d => mem_sortInts d Ux
+  have hmy : ∀ d, d ∈ sortInts Uy ↔ d ∈ Uy := fun d => mem_sortInts d Uy
+  generalize hhx : sizeAt Ux x.sizes = hX at *
+  generalize hhy : sizeAt Uy y.sizes = hY at *
+  -- the broadcast shape
+  let σ : Nat → Nat := fun j => if sigmaAx (sortInts Ux) hX n j = 1 then sigmaAx (sortInts Uy) hY n j
+    else sigmaAx (sortInts Ux) hX n j
+  have hcompat : ∀ j : Nat, sigmaAx (sortInts Ux) hX n j = sigmaAx (sortInts Uy) hY n j ∨
+      sigmaAx (sortInts Ux) hX n j = 1 ∨ sigmaAx (sortInts Uy) hY n j = 1 := by
+    intro j
+    by_cases h1 : (j : Int) - (n : Int) ∈ sortInts Ux
+    · by_cases h2 : (j : Int) - (n : Int) ∈ sortInts Uy
+      · obtain ⟨k1, hk1, hs1, _⟩ := (hLx (fun _ => 0)).2 _ ((hmx _).mp h1)
+        obtain ⟨k2, hk2, hs2, _⟩ := (hLy (fun _ => 0)).2 _ ((hmy _).mp h2)
+        rw [hk1] at hk2
+        left; simp only [sigmaAx, h1, h2, if_true, hs1, hs2, Option.some.inj hk2]
+      · right; right; simp [sigmaAx, h2]
+    · right; left; simp [sigmaAx, h1]
+  have hbsh : bshape2 a'.shape b'.shape = some ((List.range n).map σ) := by
+    rw [has, hbs]; exact bshape2_map _ _ _ (fun j _ => hcompat j)
+  -- unfold the rule up to to_funsor
+  have hd2nne : d2n ≠ [] := by
+    rw [← hd2n]
+    cases hk : x.inputs with
+    | nil => exact absurd hk hxi
+    | cons p ps =>
+      have := hall x (by simp) p.1 (by simp [Tensor.keys, hk])
+      cases hnn : n2d with
+      | nil => rw [hnn] at this; simp at this
+      | cons q qs => simp
+  have hd2nneg : ∀ p ∈ d2n, p.1 < 0 := by
+    intro p hp; rw [← hd2n] at hp
+    simp only [List.mem_map] at hp
+    obtain ⟨q, hq, rfl⟩ := hp
+    exact hneg q hq
+  have hd2ninj : (d2n.map (·.2)).Nodup := by
+    rw [← hd2n, List.map_map]; exact hkn
+  let data : Arr α := ⟨(List.range n).map σ,
+    fun idx => f (a'.get (clip a'.shape idx)) (b'.get (clip b'.shape idx))⟩
+  have hbc : bcast2 f a b = .ok data := by
+    simp only [bcast2, hn, hpa', hpb', hbsh]; rfl
+  have hlist : (axisNames d2n ((List.range n).map σ).length).zip ((List.range n).map σ)
+      = (List.range n).map (fun (j : Nat) => (lookup ((j : Int) - (n : Int)) d2n, σ j)) := by
+    simp only [List.length_map, List.length_range, axisNames]
+    exact zip_map_same _ _ _
+  -- every non-trivial axis is named, with its size
+  have hσname : ∀ j, σ j ≠ 1 → ∃ k, lookup ((j : Int) - (n : Int)) d2n = some k ∧ σ j = sz k := by
+    intro j hj
+    by_cases h1 : sigmaAx (sortInts Ux) hX n j = 1
+    · have hσj : σ j = sigmaAx (sortInts Uy) hY n j := by simp only [σ, h1, if_true]
+      rw [hσj] at hj ⊢
+      by_cases h2 : (j : Int) - (n : Int) ∈ sortInts Uy
+      · obtain ⟨k, hk, hs, _⟩ := (hLy (fun _ => 0)).2 _ ((hmy _).mp h2)
+        exact ⟨k, hk, by simp [sigmaAx, h2, hs]⟩
+      · simp [sigmaAx, h2] at hj
+    · have hσj : σ j = sigmaAx (sortInts Ux) hX n j := by simp only [σ, h1, if_false]
+      rw [hσj]
+      by_cases h2 : (j : Int) - (n : Int) ∈ sortInts Ux
+      · obtain ⟨k, hk, hs, _⟩ := (hLx (fun _ => 0)).2 _ ((hmx _).mp h2)
+        exact ⟨k, hk, by simp [sigmaAx, h2, hs]⟩
+      · simp [sigmaAx, h2] at h1
+  have hnamed : AllNamed ((axisNames d2n ((List.range n).map σ).length).zip ((List.range n).map σ)) := by
+    rw [hlist]
+    intro p hp hnone
+    simp only [List.mem_map, List.mem_range] at hp
+    obtain ⟨j, _, rfl⟩ := hp
+    by_cases h1 : σ j = 1
+    · exact h1
+    · obtain ⟨k, hk, _⟩ := hσname j h1
+      simp only at hnone; rw [hk] at hnone; cases hnone
+  obtain ⟨t, ht, hti, _, _, hsem⟩ := toFunsor_sem data ((List.range n).map σ) [] none d2n hd2nne hd2nneg
+    (by simp [data]) hnamed
+    (packed_nodup_of_consistent _ _ _ (consistent_axisNames d2n hd2ninj _))
+  refine ⟨t, ?_, ?_⟩
+  · simp only [madeOp2, hn2d, Bool.false_eq_true, if_false, ha, hb, hbc, hd2n]
+    exact ht
+  · intro env henv
+    have hbnd : ∀ p ∈ t.inputs, env p.1 < p.2 := by
+      intro p hp
+      rw [hti, hlist] at hp
+      obtain ⟨j, _, hj, hne⟩ := packed_map_mem _ _ p hp
+      simp only [Prod.mk.injEq] at hj
+      obtain ⟨k, hk, hs⟩ := hσname j (by rw [hj.2]; exact hne)
+      rw [hj.1] at hk
+      rw [← hj.2, hs, ← Option.some.inj hk]; exact henv _
+    have := hsem env [] hbnd rfl
+    rw [List.append_nil, hlist, bidx_eq_map, List.map_map] at this
+    rw [this]
+    show f (a'.get (clip a'.shape _)) (b'.get (clip b'.shape _)) = _
+    have cx := clip_operand sz d2n env henv (sortInts Ux) hX n σ
+      (fun j h1 => by simp only [σ, h1, if_false])
+      (fun d hd => (hLx env).2 d ((hmx d).mp hd))
+    have cy := clip_operand sz d2n env henv (sortInts Uy) hY n σ
+      (fun j h1 => by
+        by_cases h0 : sigmaAx (sortInts Ux) hX n j = 1
+        · simp only [σ, h0, if_true]
+        · rcases hcompat j with h2 | h2 | h2
+          · simp only [σ, h2]; split <;> rfl
+          · exact absurd h2 h0
+          · exact absurd h2 h1)
+      (fun d hd => (hLy env).2 d ((hmy d).mp hd))
+    simp only [Function.comp_def] at cx cy ⊢
+    rw [has, hbs, cx, cy,
+      hav (dimVal d2n env) (bounded_of_maps Ux x.inputs _ hX env
+        (by rw [(hLx env).1]; simp [Tensor.keys]) (by rw [← hhx]; exact map_sizeAt Ux x.sizes hUxn (by
+          have := mapM_some_length _ _ _ hUx; simpa [Tensor.keys, Tensor.sizes] using this))
+        (fun p hp => by rw [hxs p hp]; exact henv _)),
+      hbv (dimVal d2n env) (bounded_of_maps Uy y.inputs _ hY env
+        (by rw [(hLy env).1]; simp [Tensor.keys]) (by rw [← hhy]; exact map_sizeAt Uy y.sizes hUyn (by
+          have := mapM_some_length _ _ _ hUy; simpa [Tensor.keys, Tensor.sizes] using this))
+        (fun p hp => by rw [hys p hp]; exact henv _)),
+      (hLx env).1, (hLy env).1]
+    simp [Tensor.atEnv]
 
 
 /-- `output=None`: the event shape is inferred from the leftmost key of `dim_to_name`, after which
